@@ -192,22 +192,34 @@ func GenStress(t *rapid.T) StressCase {
 		Keys:  rapid.IntRange(1, 3).Draw(t, "keys"),
 		Procs: rapid.SampledFrom([]int{2, 4, 8}).Draw(t, "procs"),
 	}
+	// hot: few keys, longer programs made mostly of Remove / Set / consuming Get,
+	// so that calls which unlink an entry and calls which re-create it overlap often
+	hot := rapid.IntRange(0, 3).Draw(t, "hot") == 3
 	g := rapid.IntRange(2, 4).Draw(t, "goroutines")
+	lo, hi := 3, 16
+	wSet, wGet, wRemove, wClear := 40, 80, 88, 91
+	if hot {
+		c.Size = rapid.IntRange(1, 3).Draw(t, "hot_size")
+		c.Keys = rapid.IntRange(1, 2).Draw(t, "hot_keys")
+		g = rapid.IntRange(3, 4).Draw(t, "hot_goroutines")
+		lo, hi = 10, 24
+		wSet, wGet, wRemove, wClear = 38, 55, 95, 97
+	}
 	for i := 0; i < g; i++ {
-		n := rapid.IntRange(3, 16).Draw(t, "n")
+		n := rapid.IntRange(lo, hi).Draw(t, "n")
 		var prog []Op
 		for j := 0; j < n; j++ {
 			var o Op
 			w := rapid.IntRange(0, 99).Draw(t, "kind")
 			switch {
-			case w < 40:
+			case w < wSet:
 				o = Op{Kind: "set", Key: rapid.IntRange(0, c.Keys-1).Draw(t, "key")}
 				if rapid.IntRange(0, 2).Draw(t, "has_ttl") == 2 {
 					o.HasTTL, o.TTL = true, rapid.SampledFrom([]int64{0, 1, 3}).Draw(t, "sttl")
 				}
 				o.MNE = rapid.IntRange(0, 3).Draw(t, "mne") == 3
 				o.Keep = rapid.IntRange(0, 4).Draw(t, "keep") == 4
-			case w < 80:
+			case w < wGet:
 				o = Op{Kind: "get", Key: rapid.IntRange(0, c.Keys-1).Draw(t, "key")}
 				switch rapid.IntRange(0, 5).Draw(t, "gopt") {
 				case 3, 4, 5:
@@ -215,9 +227,9 @@ func GenStress(t *rapid.T) StressCase {
 				case 2:
 					o.Upd, o.TTL = true, rapid.SampledFrom([]int64{0, 2}).Draw(t, "uttl")
 				}
-			case w < 88:
+			case w < wRemove:
 				o = Op{Kind: "remove", Key: rapid.IntRange(0, c.Keys-1).Draw(t, "key")}
-			case w < 91:
+			case w < wClear:
 				o = Op{Kind: "clear"}
 			default:
 				o = Op{Kind: "advance", Dt: int64(rapid.IntRange(0, 2).Draw(t, "dt"))}
@@ -372,6 +384,38 @@ func ExecStress(c StressCase) *vkit.Result {
 	if live > c.Size {
 		return res.Failf("race/stress/bound", "%d keys retrievable at the end, size is %d%s", live, c.Size, show())
 	}
+	// sequential epilogue on the very same cache: whatever the concurrent phase
+	// left behind, from here on the cache must follow the sequential model
+	// (damage to the recency list or the index shows as a lost or surplus key)
+	if c.Size <= 64 {
+		post := stressEpilogue(c)
+		universe := c.Keys + c.Size + 1
+		start := atomic.LoadInt64(&clk)
+		m := newModel(c.Size, c.TTL, universe, len(post)+universe, start, res)
+		r := &memRun{ctx: ctx, tc: tc, m: m, res: res, keys: universe,
+			now: func() int64 { return atomic.LoadInt64(&clk) }, advance: func(dt int64) { atomic.AddInt64(&clk, dt) }, vr: newValuer()}
+		for i, o := range post {
+			r.step(i, o)
+			if res.Fail != nil {
+				break
+			}
+		}
+		if res.Fail == nil {
+			all := make([]int, universe)
+			for k := range all {
+				all[k] = k
+			}
+			r.probe(len(post), all)
+		}
+		if res.Fail == nil {
+			m.boundCheck()
+		}
+		if res.Fail != nil {
+			res.Fail.Site = "race/stress/epilogue:" + res.Fail.Site
+			res.Fail.Msg += "\nconcurrent phase before it:" + show()
+			return res
+		}
+	}
 	tc.Clear(ctx)
 	for k := 0; k < c.Keys; k++ {
 		if v, err := tc.Get(ctx, keyName(k)); err == nil {
@@ -392,9 +436,204 @@ func ExecStress(c StressCase) *vkit.Result {
 	return res
 }
 
+// stressEpilogue is the sequential history run after the concurrent phase has
+// ended (all goroutines joined): every stressed key is removed (so the model
+// knows its state), set again, fresh keys fill the cache exactly up to its size,
+// every key is read, then one more fresh key overflows it and everything is read
+// again. All Sets carry ttl 0 (no expiry), the clock stands still.
+func stressEpilogue(c StressCase) []Op {
+	var ops []Op
+	for k := 0; k < c.Keys; k++ {
+		ops = append(ops, Op{Kind: "remove", Key: k})
+	}
+	for k := 0; k < c.Keys; k++ {
+		ops = append(ops, Op{Kind: "set", Key: k, HasTTL: true, TTL: 0})
+	}
+	fresh := c.Keys
+	for n := c.Keys; n < c.Size; n++ {
+		ops = append(ops, Op{Kind: "set", Key: fresh, HasTTL: true, TTL: 0})
+		fresh++
+	}
+	for k := 0; k < fresh; k++ {
+		ops = append(ops, Op{Kind: "get", Key: k})
+	}
+	ops = append(ops, Op{Kind: "set", Key: fresh, HasTTL: true, TTL: 0})
+	for k := 0; k <= fresh; k++ {
+		ops = append(ops, Op{Kind: "get", Key: k})
+	}
+	return ops
+}
+
 var PartStress = &vkit.Part[StressCase]{
 	Property: Property, Name: "race-stress",
-	Rule:  "rapid: in-memory cache of size 0..3, default ttl in {0,2,10}, 1..3 keys, 2..4 free-running goroutines x 3..16 ops (Set with every option 40%, Get 40% half of them remove-after-get, Remove, Clear, clock advance 0..2 through an atomic), GOMAXPROCS in {2,4,8}, released by one barrier, run in a -race binary. Oracle (valid under every interleaving): race detector; only allowed errors; every hit returns a value some Set stored under that very key; a stored value is consumed by at most one successful remove-after-get; no hit at size 0; at quiescence at most size keys are retrievable and none after Clear. Non-trivial: >= 2 goroutines and at least one hit",
+	Rule:  "rapid: in-memory cache of size 0..3, default ttl in {0,2,10}, 1..3 keys, 2..4 free-running goroutines x 3..16 ops (Set with every option 40%, Get 40% half of them remove-after-get, Remove, Clear, clock advance 0..2 through an atomic); a quarter of the cases hot: size 1..3, 1..2 keys, 3..4 goroutines x 10..24 ops with Remove 40%, Set 38%, Get 17%, GOMAXPROCS in {2,4,8}, released by one barrier, run in a -race binary. Oracle (valid under every interleaving): race detector; only allowed errors; every hit returns a value some Set stored under that very key; a stored value is consumed by at most one successful remove-after-get; no hit at size 0; at quiescence at most size keys are retrievable and none after Clear; between the two, a sequential epilogue on the same cache (Remove and Set every stressed key, fill up to size with fresh keys, read all, overflow by one, read all) is judged by the three-valued model of part mem (sites race/stress/epilogue:...). Non-trivial: >= 2 goroutines and at least one hit",
 	Quick: 1500, Thorough: 12000,
 	Gen: GenStress, Exec: ExecStress,
+}
+
+// ---------------------------------------------------------------------------
+// part "race-mne": goroutines Set(k, must-not-exist) the same absent key at
+// once. The statement makes set-if-absent succeed on an absent key and report
+// AlreadyExists on a live one: of the concurrent calls exactly one can have
+// found the key absent.
+
+type MNECase struct {
+	Impl    string `json:"impl"`    // mem | rds
+	Rounds  int    `json:"rounds"`  // distinct keys; all goroutines meet at a barrier before each
+	Setters int    `json:"setters"` // goroutines
+	Prior   string `json:"prior"`   // state of every key before the race: never-set | removed | consumed | expired | cleared | live
+	TTL     int64  `json:"ttl"`     // ttl of the racing Sets (mem: <= 0 allowed)
+	Procs   int    `json:"procs"`   // GOMAXPROCS
+}
+
+func GenMNE(t *rapid.T) MNECase {
+	c := MNECase{
+		Impl:    rapid.SampledFrom([]string{"mem", "mem", "rds"}).Draw(t, "impl"),
+		Rounds:  rapid.IntRange(1, 16).Draw(t, "rounds"),
+		Setters: rapid.IntRange(2, 8).Draw(t, "setters"),
+		Prior:   rapid.SampledFrom([]string{"never-set", "never-set", "removed", "consumed", "expired", "cleared", "live"}).Draw(t, "prior"),
+		Procs:   rapid.SampledFrom([]int{1, 2, 4, 8}).Draw(t, "procs"),
+	}
+	if c.Impl == "rds" {
+		c.TTL = rapid.SampledFrom([]int64{1, 5, 100}).Draw(t, "ttl")
+	} else {
+		c.TTL = rapid.SampledFrom([]int64{-1, 0, 1, 5, 100}).Draw(t, "ttl")
+	}
+	return c
+}
+
+func mneValue(g, r int) string { return fmt.Sprintf("s%d.%d", g, r) }
+
+func ExecMNE(c MNECase) *vkit.Result {
+	res := &vkit.Result{}
+	if c.Rounds < 1 || c.Rounds > 64 || c.Setters < 1 || c.Setters > 64 || c.Procs < 1 || c.Procs > 64 {
+		res.Skip("malformed-case")
+		return res
+	}
+	if c.Impl != "mem" && c.Impl != "rds" {
+		res.Skip("unknown-impl")
+		return res
+	}
+	if c.Impl == "rds" && c.TTL <= 0 {
+		res.Skip("outside-the-differential-domain")
+		return res
+	}
+	var clk int64 = t0
+	clock := func() int64 { return atomic.LoadInt64(&clk) }
+	restore := cache.VerifSetNow(clock)
+	defer restore()
+	defer runtime.GOMAXPROCS(runtime.GOMAXPROCS(c.Procs))
+	ctx := context.Background()
+	var tc cache.TTLCache
+	if c.Impl == "mem" {
+		// room for every key: nothing is evicted
+		tc = cache.NewTTLMemCache(c.Rounds+2, 10)
+	} else {
+		fake := newFakeRedis(clock, ScanCfg{})
+		fake.yield = true
+		tc = cache.NewTTLRdsCache(fake, rdsPrefix, 10)
+	}
+	key := func(r int) string { return fmt.Sprintf("m%d", r) }
+	const priorVal = "prior"
+	for r := 0; r < c.Rounds; r++ {
+		if c.Prior == "never-set" {
+			break
+		}
+		if err := tc.Set(ctx, key(r), []byte(priorVal), cache.WithTTL(3)); err != nil {
+			return res.Failf("race/mne/setup", "Set returned %v", err)
+		}
+	}
+	switch c.Prior {
+	case "never-set", "live":
+	case "removed":
+		for r := 0; r < c.Rounds; r++ {
+			_ = tc.Remove(ctx, key(r))
+		}
+	case "consumed":
+		for r := 0; r < c.Rounds; r++ {
+			if _, err := tc.Get(ctx, key(r), cache.WithRemoveAfterGet()); err != nil {
+				return res.Failf("race/mne/setup", "Get(remove-after-get) of a key just set returned %v", err)
+			}
+		}
+	case "expired":
+		atomic.AddInt64(&clk, 4)
+	case "cleared":
+		tc.Clear(ctx)
+	default:
+		res.Skip("unknown-prior-state")
+		return res
+	}
+	res.Class(c.Impl)
+	res.Class("prior:" + c.Prior)
+	res.Class(fmt.Sprintf("procs=%d", c.Procs))
+
+	errs := make([][]error, c.Setters)
+	// one barrier per round: the last goroutine to arrive releases all of them
+	arrived := make([]int64, c.Rounds)
+	gates := make([]chan struct{}, c.Rounds)
+	for r := range gates {
+		gates[r] = make(chan struct{})
+	}
+	var wg sync.WaitGroup
+	for g := 0; g < c.Setters; g++ {
+		errs[g] = make([]error, c.Rounds)
+		wg.Add(1)
+		go func(g int) {
+			defer wg.Done()
+			for r := 0; r < c.Rounds; r++ {
+				if atomic.AddInt64(&arrived[r], 1) == int64(c.Setters) {
+					close(gates[r])
+				}
+				<-gates[r]
+				errs[g][r] = tc.Set(ctx, key(r), []byte(mneValue(g, r)), cache.WithMustNotExist(), cache.WithTTL(c.TTL))
+			}
+		}(g)
+	}
+	wg.Wait()
+
+	for r := 0; r < c.Rounds; r++ {
+		winner, succ := -1, 0
+		var desc []string
+		for g := 0; g < c.Setters; g++ {
+			err := errs[g][r]
+			desc = append(desc, errName(err))
+			switch {
+			case err == nil:
+				succ++
+				winner = g
+			case !errors.Is(err, cache.ErrTTLKeyExists):
+				return res.Failf("race/mne/error", "Set(%s, must-not-exist) returned %v", key(r), err)
+			}
+		}
+		want := priorVal
+		if c.Prior == "live" {
+			if succ != 0 {
+				return res.Failf("race/mne/live-overwritten", "%d of %d concurrent Set(%s, must-not-exist) succeeded although the key is live (set with ttl 3, clock unchanged): %v", succ, c.Setters, key(r), desc)
+			}
+		} else {
+			if succ > 1 {
+				return res.Failf("race/mne/several-winners", "%d of %d concurrent Set(%s, must-not-exist) succeeded on one absent key (%s): exactly one of them can have found it absent: %v", succ, c.Setters, key(r), c.Prior, desc)
+			}
+			if succ == 0 {
+				return res.Failf("race/mne/no-winner", "none of %d concurrent Set(%s, must-not-exist) succeeded although the key was absent (%s): %v", c.Setters, key(r), c.Prior, desc)
+			}
+			want = mneValue(winner, r)
+		}
+		v, err := tc.Get(ctx, key(r))
+		if err != nil {
+			return res.Failf("race/mne/lost", "after the race (%v) Get(%s) returned %v; the key holds %q and cannot have expired or been evicted", desc, key(r), err, want)
+		}
+		if string(v) != want {
+			return res.Failf("race/mne/value", "after the race (%v) Get(%s) returned %q; the only successful Set stored %q", desc, key(r), v, want)
+		}
+	}
+	res.NonTrivial = c.Prior != "live" && c.Setters >= 2
+	return res
+}
+
+var PartMNE = &vkit.Part[MNECase]{
+	Property: Property, Name: "race-mne",
+	Rule:  "rapid: implementation (mem 2/3 with room for every key, redis-backed over the mutex-guarded fake 1/3 - each fake command is atomic, as a Redis command is, and a caller gives way before each command), 1..16 keys all brought into one prior state (never set 2/7, removed, consumed by remove-after-get, ttl elapsed, cleared - absent; or live), then 2..8 goroutines that meet at a barrier before each key and all Set(key, must-not-exist, ttl in {-1,0,1,5,100}; positive for redis) it with a value of their own, GOMAXPROCS in {1,2,4,8}, run in a -race binary. Oracle: on an absent key exactly one Set succeeds and the others report AlreadyExists, on a live key none succeeds; the key then reads the winner's (or the prior) value; only AlreadyExists as an error; the race detector is part of the oracle. Non-trivial: absent keys and >= 2 setters",
+	Quick: 1200, Thorough: 12000,
+	Gen: GenMNE, Exec: ExecMNE,
 }
